@@ -165,6 +165,22 @@ impl Multi<'_> {
     }
 }
 
+impl Multi<'_> {
+    /// The multinomial loss as linfa's `log_sum_exp` computes it on the unchanged tree: shift by the maximum of
+    /// the whole score matrix, clamp each row sum at 1e-15. Used only to attribute a failure to that defect.
+    pub fn value_global_max_clamped(&self, t: &[f64]) -> f64 {
+        let hs: Vec<Vec<f64>> = (0..self.x.len()).map(|i| self.scores(t, i)).collect();
+        let gmax = hs.iter().flatten().cloned().fold(f64::NEG_INFINITY, f64::max);
+        let mut f = 0.0;
+        for (i, h) in hs.iter().enumerate() {
+            let s: f64 = h.iter().map(|v| (v - gmax).exp()).sum();
+            let lse = s.max(1e-15).ln() + gmax;
+            f += lse - h[self.c[i]];
+        }
+        f + 0.5 * self.alpha * t.iter().take(self.p * self.k).map(|v| v * v).sum::<f64>()
+    }
+}
+
 impl Objective for Multi<'_> {
     fn dim(&self) -> usize {
         self.rows() * self.k
@@ -480,6 +496,9 @@ pub enum Verdict {
     Stalled,
     /// neither
     NotStationary,
+    /// not stationary, and the fit returns something else when allowed twice as many iterations:
+    /// the run was stopped by `max_iterations`, i.e. it did not converge (set by the callers)
+    IterationCap,
     /// the objective cannot be evaluated at the returned point (outside the deviance domain / non-finite)
     Undefined,
 }
@@ -495,6 +514,17 @@ pub struct Judged {
 
 pub fn grad_bound(tol: f64, curv: f64, f: f64) -> f64 {
     GRAD_SLACK * tol + RESOLUTION_FACTOR * (curv.max(0.0) * f.abs().max(1.0)).sqrt()
+}
+
+/// where inside the bound a stationary verdict landed
+pub fn grad_class(gnorm: f64, tol: f64) -> &'static str {
+    if gnorm < tol {
+        "stationary_grad_below_tol"
+    } else if gnorm <= GRAD_SLACK * tol {
+        "stationary_grad_below_10_tol"
+    } else {
+        "stationary_grad_within_resolution_term"
+    }
 }
 
 pub fn judge(obj: &dyn Objective, theta: &[f64], tol: f64) -> Judged {
